@@ -23,6 +23,19 @@ fn profile() -> Profile {
     p
 }
 
+/// the statement excludes code that reads the current Bitcoin transaction id (precompile 0xfa), time or
+/// randomness (the Probe contract)
+fn excluded(t: &Target, d: &Cd) -> bool {
+    if matches!(t, Target::Precompile(0xfa)) || matches!(d, Cd::Probe(_)) {
+        return true;
+    }
+    match d {
+        Cd::CallOther { target, inner, .. } => excluded(target, inner),
+        Cd::Multi(v) => v.iter().any(|c| excluded(&Target::Dead, c)),
+        _ => false,
+    }
+}
+
 impl Prop for C17 {
     fn id(&self) -> &'static str {
         "C17"
@@ -88,7 +101,7 @@ impl Prop for C17 {
                 } else {
                     let (target, data) = loop {
                         let (t, d) = g.call_pair();
-                        if !matches!(d, Cd::Probe(_)) {
+                        if !excluded(&t, &d) {
                             break (t, d);
                         }
                     };
